@@ -91,6 +91,7 @@ Options:
 		if err == _flag.ErrHelp {
 			return
 		}
+		_fmt.Fprintln(_os.Stderr, "Error:", err)
 		_os.Exit(2)
 	}
 	args.Args = fs.Args()
